@@ -317,16 +317,15 @@ def run(ctx):
             conn = [n for n in astx.walk_fn(gec.node) if isinstance(n, ast.Call) and prog.external(gec.module, n.func) == "networkx.is_connected"]
             app = [n for n in astx.walk_fn(gec.node) if isinstance(n, ast.Call) and isinstance(n.func, ast.Attribute) and n.func.attr == "append" and n.args and txt(n.args[0]).startswith("len(")]
             if len(conn) == 1 and len(app) == 1:
+                # under which outcome of the connectivity test is the size recorded?  (enclosing if, negated
+                # continue-guard, or the test bound to a local first - all are path conditions of the append)
+                polarity = None
                 ifn = epar.stmt_of(conn[0])
-                if not isinstance(ifn, ast.If):
-                    # the test may be bound to a local first: ok = nx.is_connected(t); if ok: ...
-                    facts_ = rules.known_facts(epar, app[0])
-                    hit_ = [(t_, p_) for t_, p_ in facts_ if txt(conn[0]) in txt(esc.resolve(t_))]
-                    if len(hit_) == 1 and isinstance(epar.stmt_of(hit_[0][0]), ast.If):
-                        ifn = epar.stmt_of(hit_[0][0])
-                        if not hit_[0][1] or txt(esc.resolve(hit_[0][0])) != txt(conn[0]):
-                            ifn = ast.If(test=ast.UnaryOp(op=ast.Not(), operand=conn[0]), body=[], orelse=[])
-                if isinstance(ifn, ast.If) and (ifn.test is conn[0] or txt(esc.resolve(ifn.test)) == txt(conn[0])) and epar.branch_of(app[0], ifn) == "body":
+                for t_, p_ in rules.known_facts(epar, app[0]):
+                    if txt(esc.resolve(t_)) == txt(conn[0]):
+                        polarity = p_
+                        ifn = epar.stmt_of(t_)
+                if polarity is True:
                     tst = txt(conn[0].args[0])
                     rm = [n for n in astx.walk_fn(gec.node) if isinstance(n, ast.Call) and isinstance(n.func, ast.Attribute) and n.func.attr == "remove_edges_from" and txt(n.func.value) == tst]
                     if rm and rules.is_copy_of(esc, tst, [Ge]) or (rm and rules.copy_source(esc.single_def(tst, allow_mutated=True)) == Ge):
@@ -337,7 +336,7 @@ def run(ctx):
                             o.violated(gec, app[0], f"records `{txt(app[0].args[0])}`, not the number of removed edges")
                     else:
                         o.undecided("connectivity test is not on a fresh copy with the subset removed", gec, conn[0])
-                elif isinstance(ifn, ast.If) and isinstance(ifn.test, ast.UnaryOp):
+                elif polarity is False:
                     o.violated(gec, ifn, "counts the subsets whose removal DISconnects the component")
                 else:
                     o.undecided("connectivity filter not recognised", gec)
@@ -357,12 +356,23 @@ def run(ctx):
             o.holds(rec, first, "the current vertex set is recorded")
         else:
             o.violated(rec, rec.node, "the current vertex set is not recorded on entry: components are missing from the sum")
-        stops = [s for s in body if isinstance(s, ast.If) and any(isinstance(x, ast.Return) for x in s.body)]
-        if len(stops) == 1 and txt(stops[0].test) in (f"len({sub}) == {mx}", f"len({sub}) >= {mx}"):
-            o.holds(rec, stops[0], "recursion stops at the full vertex set")
-        elif stops:
-            o.violated(rec, stops[0], f"recursion stops under `{txt(stops[0].test)}`: larger components are never produced") if mx in txt(stops[0].test) else o.undecided("stop test", rec, stops[0])
-        loops = [s for s in body if isinstance(s, ast.For)]
+        rpar_ = rsc.parents
+        early = [r_ for r_ in astx.walk_fn(rec.node) if isinstance(r_, ast.Return) and not rpar_.loops_of(r_)]
+        xloops = [s for s in astx.walk_fn(rec.node) if isinstance(s, ast.For) and not rpar_.loops_of(s)]
+        stop_terms = []
+        for r_ in early:
+            stop_terms.append((rules.path_term(rpar_, rsc, r_, keep=[sub, mx]), r_))
+        if not early and len(xloops) == 1 and rules.path_conditions(rpar_, xloops[0]):
+            # the extension loop itself is guarded instead:  if len(subgraph) != max_size: for ...
+            stop_terms.append((tm.canon(tm.mk_not(rules.path_term(rpar_, rsc, xloops[0], keep=[sub, mx]))), xloops[0]))
+        ok_stop = [rules.cond_term(f"len({sub}) == {mx}"), rules.cond_term(f"len({sub}) >= {mx}")]
+        if len(stop_terms) == 1 and stop_terms[0][0] in ok_stop:
+            o.holds(rec, stop_terms[0][1], "recursion stops at the full vertex set")
+        elif len(stop_terms) == 1 and not tm.has_opaque(stop_terms[0][0]) and mx in tm.leaves(stop_terms[0][0]):
+            o.violated(rec, stop_terms[0][1], f"recursion stops under `{tm.show(stop_terms[0][0])[:80]}`: larger components are never produced")
+        elif stop_terms:
+            o.undecided("stop test", rec, stop_terms[0][1])
+        loops = xloops
         if len(loops) != 1:
             o.undecided("extension loop not found", rec)
             return
